@@ -348,6 +348,10 @@ pub fn term_to_json(t: &Term<&str>) -> R<J> {
         Term::Recurse => json!({"k": "recurse"}),
         Term::Num(s) => match s.parse::<i64>() {
             Ok(n) if n.abs() < (1 << 31) => json!({"k": "num", "n": n}),
+            _ if !s.is_empty() && s.bytes().all(|b| b.is_ascii_digit()) => {
+                let d: Vec<i64> = s.trim_start_matches('0').bytes().map(|b| (b - b'0') as i64).collect();
+                json!({"k": "bignum", "neg": false, "d": d})
+            }
             _ => json!({"k": "numx", "s": s}),
         },
         Term::Str(fmt, parts) => {
@@ -529,7 +533,7 @@ fn print_pat(p: &J, out: &mut String) -> R<()> {
 fn paren(t: &J, out: &mut String) -> R<()> {
     // atoms that need no parentheses keep the text readable
     let k = t["k"].as_str().unwrap_or("");
-    let atom = matches!(k, "id" | "recurse" | "var" | "arr" | "obj" | "str")
+    let atom = matches!(k, "id" | "recurse" | "var" | "arr" | "obj" | "str" | "bignum")
         || (k == "num" && t["n"].as_i64().unwrap_or(-1) >= 0)
         || (k == "call" && !t["f"].as_str().unwrap_or("").starts_with('@'));
     if atom {
@@ -558,6 +562,15 @@ pub fn print(t: &J, out: &mut String) -> R<()> {
             }
         }
         "numx" => out.push_str(t["s"].as_str().ok_or("s")?),
+        "bignum" => {
+            let d = t["d"].as_array().ok_or("d")?;
+            let txt: String = if d.is_empty() { "0".into() } else { d.iter().map(|x| (b'0' + x.as_i64().unwrap_or(0) as u8) as char).collect() };
+            if t["neg"].as_bool().unwrap_or(false) {
+                out.push_str(&format!("(-{txt})"));
+            } else {
+                out.push_str(&txt);
+            }
+        }
         "str" => {
             if let Some(f) = t.get("fmt").and_then(|f| f.as_str()) {
                 out.push_str(f);
